@@ -145,8 +145,8 @@ func conserveStats(scale int) error {
 	if g == nil {
 		return fmt.Errorf("stats: no getter")
 	}
-	sink := interceptor.RTPWriterFunc(func(*rtp.Header, []byte, interceptor.Attributes) (int, error) { return 0, nil })
-	rtcpW := icpt.BindRTCPWriter(interceptor.RTCPWriterFunc(func([]rtcp.Packet, interceptor.Attributes) (int, error) { return 0, nil }))
+	sink := interceptor.RTPWriterFunc(consumeRTP)
+	rtcpW := icpt.BindRTCPWriter(interceptor.RTCPWriterFunc(consumeRTCP))
 	var rtcpRound atomic.Uint32
 	rtcpR := icpt.BindRTCPReader(interceptor.RTCPReaderFunc(func(b []byte, a interceptor.Attributes) (int, interceptor.Attributes, error) {
 		in := rtcpInput(rtcpRound.Add(1), 100)
@@ -416,7 +416,7 @@ func conserveReportSender(scale int) error {
 
 		return 0, nil
 	}))
-	sink := interceptor.RTPWriterFunc(func(*rtp.Header, []byte, interceptor.Attributes) (int, error) { return 0, nil })
+	sink := interceptor.RTPWriterFunc(consumeRTP)
 	var rtcpRound atomic.Uint32
 	rtcpR := icpt.BindRTCPReader(interceptor.RTCPReaderFunc(func(b []byte, a interceptor.Attributes) (int, interceptor.Attributes, error) {
 		in := rtcpInput(rtcpRound.Add(1), 100)
